@@ -22,8 +22,8 @@ from pathlib import Path
 
 ROOT = Path(__file__).resolve().parent.parent
 SPECS = ROOT / "specs"
-EVIDENCE = ROOT / "evidence"
-REPLAYS = ROOT / "replays"
+EVIDENCE = Path(os.environ.get("VERIF_EVIDENCE_DIR") or (ROOT / "evidence"))   # redirected when a scratch copy is checked
+REPLAYS = Path(os.environ.get("VERIF_REPLAYS_DIR") or (ROOT / "replays"))
 KNOWN_FILE = ROOT / "known_findings.json"
 REPO = Path(os.environ.get("VERIF_REPO", "/repo"))
 TLA_JAR = "/opt/veriftools/tla/tla2tools.jar:/opt/veriftools/tla/CommunityModules-deps.jar"
